@@ -42,6 +42,11 @@ type Exchange struct {
 	RespBody []byte
 	Err      string
 	Injected string // fault / script that produced this answer ("" = organic)
+
+	// filled for browser-side exchanges once the response is in: what the
+	// request caused on the back-channel links and at the upstream backends
+	Children []*Exchange
+	Arrivals []*Arrival
 }
 
 // Log is the append-only event log of one run.
